@@ -25,7 +25,7 @@ fn n_cases_base(prop: &str, tier: &str) -> usize {
         "C12" => if quick { 9000 } else { 100_000 },
         "C20" => if quick { 1200 } else { 4100 },
         "C01" | "C02" => if quick { 1200 } else { SMALL_SCOPE + 40_000 },
-        "C03" => if quick { 600 } else { SMALL_SCOPE + 20_000 },
+        "C03" => if quick { 900 } else { SMALL_SCOPE + 20_000 },
         "C15" => if quick { 1800 } else { 30_000 },
         "C16" => if quick { 450 } else { 4000 },
         "C19" => if quick { 900 } else { 10_000 },
@@ -295,6 +295,18 @@ fn c12(rng: &mut Rng, idx: usize) -> Case {
     for i in [0usize, 1, 29, 30, 31, 79, 200] {
         c.op(format!("gget u {}", i));
     }
+    {
+        // ... and exactly at the end: index len - 1 is the largest id, index len is None
+        let mut all: Vec<u32> = a.iter().chain(b.iter()).copied().collect();
+        all.sort_unstable();
+        all.dedup();
+        c.op(format!("gget u {}", all.len()));
+        c.op(format!("gget u {}", all.len().saturating_sub(1)));
+        let mut da = a.clone();
+        da.sort_unstable();
+        da.dedup();
+        c.op(format!("gget a {}", da.len()));
+    }
     let big = a.len().max(b.len());
     c.stat("max_set_size", big as u64);
     if big > 30 {
@@ -520,6 +532,11 @@ fn small_scope_case(prop: &str, idx: usize) -> Case {
 /// `variant` 0: limit of one kind; 1: three large kinds; 2: ic close to 0.
 /// Returns the case with the ontology in slot 0 (when the build succeeds) and whether it succeeds.
 pub fn big_records_case(rng: &mut Rng, variant: u64, thorough: bool) -> (Case, bool, usize) {
+    big_records_case_kind(rng, variant, thorough, None)
+}
+
+/// `kind`: the kind that gets the many records (drawn when `None`)
+pub fn big_records_case_kind(rng: &mut Rng, variant: u64, thorough: bool, kind: Option<usize>) -> (Case, bool, usize) {
     let mut c = Case::new(&format!("big-records-{variant}"));
     c.op("new".to_string());
     for (id, nm) in [(1u32, "All"), (118, "Phenotypic abnormality"), (2, "x"), (3, "y")] {
@@ -530,7 +547,8 @@ pub fn big_records_case(rng: &mut Rng, variant: u64, thorough: bool) -> (Case, b
         c.op(format!("parent {p} {ch}"));
     }
     c.op("connect".to_string());
-    let k = rng.below(3) as usize;
+    let drawn = rng.below(3) as usize;
+    let k = kind.unwrap_or(drawn);
     let mut ok = true;
     match variant {
         0 => {
@@ -645,7 +663,9 @@ fn onto_case(rng: &mut Rng, prop: &str, tier: &str, idx: usize) -> Case {
         return c;
     }
     if prop == "C03" && idx % 100 == 51 {
-        let (mut c, ok, _) = big_records_case(rng, (idx / 100 % 3) as u64, false);
+        // the three variants; the kind with the many records rotates with the case index so that
+        // the two cases of a variant in a quick run use two different kinds, ORPHA first
+        let (mut c, ok, _) = big_records_case_kind(rng, (idx / 100 % 3) as u64, false, Some((2 + idx / 300) % 3));
         if ok {
             c.op("tdump 0".to_string());
             c.op("oracle ic 0".to_string());
@@ -1179,6 +1199,24 @@ fn c19(rng: &mut Rng, idx: usize) -> Case {
         c.op("oracle defaults 0".to_string());
         return c;
     }
+    if idx == 4 {
+        // no term at all: there are no roots to take the defaults from, the build is refused; a
+        // single root alone is refused as well
+        let mut c = Case::new("defaults-empty");
+        for terms in [vec![], vec![1u32], vec![118u32]] {
+            c.op("new".to_string());
+            for t in &terms {
+                c.op(format!("term {} {}", t, name("only")));
+            }
+            c.op("complete".to_string());
+            c.op("connect".to_string());
+            c.op("ic".to_string());
+            c.op("build def 0".to_string());
+        }
+        c.stat("empty_ontologies", 1);
+        c.nontrivial = true;
+        return c;
+    }
     let mut c = Case::new("defaults");
     let missing = rng.below(8); // 0: no HP:1, 1: no HP:118, else both present
     let max_terms = *rng.pick(&[4usize, 8, 15, 30]);
@@ -1367,6 +1405,19 @@ fn c10(rng: &mut Rng, idx: usize) -> Case {
                 f.terms.push((id, gen_name(rng)));
             }
         }
+    }
+    if idx % 4 == 2 {
+        // no gene at all, but diseases (an empty section in front of non-empty ones in the file)
+        f.recs[0].clear();
+        f.links[0].clear();
+        for k in 1..3 {
+            if f.recs[k].is_empty() {
+                f.recs[k].push((77, gen_name(rng)));
+                let t = f.terms[rng.below(f.terms.len() as u64) as usize].0;
+                f.links[k].push((77, t));
+            }
+        }
+        c.stat("no_gene_but_diseases", 1);
     }
     facts_stats(&f, &mut c);
     let with_roots = f.terms.iter().any(|t| t.0 == 1) && f.terms.iter().any(|t| t.0 == 118);
